@@ -697,6 +697,44 @@ func genHistory(g *Gen) (steps w.List, tag string, ok bool) {
 	return steps, tag, true
 }
 
+// segments within a few ulps of the meridian +-180 / ending exactly at 180 or -180: float midpoints round to exactly 180.0, which the
+// code folds onto column 0 (longitude is cyclic), at intermediate rows and altitudes
+func genNear180(g *Gen, h, v int64) seg {
+	cl, ca := cellLon(h), cellAlt(v)
+	near := func() float64 {
+		sg := sgn(g)
+		return sg * Ulp(180, -g.Intn(7))
+	}
+	lat := g.R.Float64()*160 - 80
+	if g.Chance(0.2) {
+		lat = 0
+	}
+	alt := (g.R.Float64()*2 - 1) * 1000
+	if g.Chance(0.2) {
+		alt = (g.R.Float64()*2 - 1) * 3.0e7
+	}
+	k := 1 + g.R.Float64()*8
+	cy := cl * math.Cos(lat*math.Pi/180)
+	s := seg{kind: "near-180"}
+	a0 := near()
+	var b0 float64
+	switch g.Intn(4) {
+	case 0, 1: // both ends within a few ulps of the same meridian side
+		b0 = math.Copysign(Ulp(180, -g.Intn(7)), a0)
+	case 2: // the other end a few cells inside
+		b0 = a0 - math.Copysign(g.R.Float64()*k*cl, a0)
+	default: // exactly on the meridian and one ulp-ish inside
+		a0 = math.Copysign(180, a0)
+		b0 = math.Copysign(Ulp(180, -1-g.Intn(3)), a0)
+	}
+	s.a = [3]float64{a0, lat, alt}
+	s.b = [3]float64{b0, lat + (g.R.Float64()*2-1)*k*cy*g.PickF(0, 1, 1), alt + (g.R.Float64()*2-1)*k*ca*g.PickF(0, 1, 1)}
+	if g.Chance(0.5) {
+		s.a, s.b = s.b, s.a
+	}
+	return s
+}
+
 var badZooms = []int64{-1, 36, 37, 100, -36, math.MinInt64, math.MaxInt64}
 
 func init() {
@@ -715,6 +753,14 @@ func init() {
 			_, p3, _ := StoredPoint(45.7263315, -80.75007534638786, 639.72)
 			r.Run(run.Case{Prop: "C06", Fn: "GetExtendedSpatialIdsOnLine", Tags: []string{"d14-const-lat-witness"},
 				Args: []w.Val{p1, p3, w.I(34), w.I(6)}})
+		}
+		if n > 0 { // regression cases (thorough run, seed 1): float midpoints that round to longitude 180.0 and are folded onto column 0
+			r.Run(run.Case{Prop: "C06", Fn: "GetSpatialIdsOnLine", Tags: []string{"regress-midpoint-rounds-to-180"},
+				Args: []w.Val{w.L(w.F(FBits(0x40667ffffffffffe)), w.F(FBits(0xc04317c7d72a6ce8)), w.F(FBits(0x416b894780000000))),
+					w.L(w.F(FBits(0x4066800000000000)), w.F(FBits(0xc04317c8e5442d7b)), w.F(FBits(0x416b894780000000))), w.I(25)}})
+			r.Run(run.Case{Prop: "C06", Fn: "GetExtendedSpatialIdsOnLine", Tags: []string{"regress-midpoint-rounds-to-180"},
+				Args: []w.Val{w.L(w.F(FBits(0x4066800000000000)), w.F(0), w.F(FBits(0xc08ad80000000000))),
+					w.L(w.F(FBits(0x40667ffffffffffe)), w.F(0), w.F(FBits(0xc08adf64e29fb5d1))), w.I(2), w.I(28)}})
 		}
 		for i := 0; i < n; i++ {
 			if i%8 == 1 { // call histories
@@ -791,6 +837,9 @@ func init() {
 				if sid {
 					sid, cmp = false, false
 				}
+			}
+			if i%14 == 9 {
+				s = genNear180(g, h, v)
 			}
 			if i%12 == 5 { // an end point that is not stable under re-storing (the recorded finding class)
 				h = g.Pick(35, 34, 33, 32, 31, 30)
